@@ -74,8 +74,8 @@ open YaraModel.ReVm in
     soundness; the second half — reachable-at-MATCH implies a match of the expression — is proved for the ε-loop-free
     hex fragment in Thm/C02 `vm_sound_partial`; for `*`, `+`, `{n,m}` it needs the counter-stack invariant: not yet proved.) -/
 theorem vm_reports_reachable (e : Env) (m : Int) (c : List Nat) (h : exec e = .done m c) :
-    (∀ L, L ∈ c → ∃ f, Reach e f L ∧ u8 e.code f.ip = OP_MATCH) ∧
-    (0 ≤ m → ∃ f, Reach e f m.toNat ∧ u8 e.code f.ip = OP_MATCH) :=
+    (∀ L, L ∈ c → ∃ f md, Reach e f md L ∧ u8 e.code f.ip = OP_MATCH) ∧
+    (0 ≤ m → ∃ f md, Reach e f md m.toNat ∧ u8 e.code f.ip = OP_MATCH) :=
   exec_sound e m c h
 
 open YaraModel.ReVm YaraModel.ReEmit in
